@@ -208,6 +208,57 @@ func c12Spawn(w *ndWriter) int {
 	return rec.flush(w)
 }
 
+// Close with a backlog: the mailbox (capacity K >= 1) is busy with a first function that is held; K more are posted (their Post /
+// Send calls return: the buffer takes them), Close returns, the first function is released.  Everything whose submission returned
+// before Close must still be processed exactly once, in order.
+func c12CloseWithBacklog(w *ndWriter, kind string, K int) int {
+	rec := &recorder{}
+	rec.ev(E{"ev": "reset", "kind": kind, "k": K, "senders": 1, "s": 0, "i": 0})
+	var ran int32
+	gate := make(chan struct{})
+	entered := make(chan struct{}, 1)
+	body := func(m c12Msg, selfOK bool) {
+		rec.ev(E{"ev": "begin", "s": m.S, "i": m.I, "selfOK": selfOK})
+		if m.I == 1 {
+			entered <- struct{}{}
+			<-gate
+		}
+		atomic.AddInt32(&ran, 1)
+		rec.ev(E{"ev": "end", "s": m.S, "i": m.I})
+	}
+	var post func(m c12Msg)
+	var closeFn func()
+	if kind == "handler" {
+		h := fpgo.Handler.NewByCh(make(chan func(), K))
+		post = func(m c12Msg) { h.Post(func() { body(m, true) }) }
+		closeFn = h.Close
+	} else {
+		var a *fpgo.ActorDef[c12Msg]
+		a = fpgo.ActorNewByOptionsGenerics(func(self *fpgo.ActorDef[c12Msg], m c12Msg) { body(m, self == a) }, make(chan c12Msg, K), map[string]interface{}{})
+		post = func(m c12Msg) { a.Send(m) }
+		closeFn = a.Close
+	}
+	post(c12Msg{1, 1})
+	stuck := false
+	select {
+	case <-entered:
+	case <-time.After(3 * time.Second):
+		stuck = true
+	}
+	for i := 2; i <= K+1 && !stuck; i++ { // exactly the buffer's capacity: none of these calls blocks
+		post(c12Msg{1, i})
+	}
+	closeFn()
+	close(gate)
+	deadline := time.Now().Add(2 * time.Second)
+	for int(atomic.LoadInt32(&ran)) < K+1 && time.Now().Before(deadline) {
+		time.Sleep(200 * time.Microsecond)
+	}
+	time.Sleep(2 * time.Millisecond)
+	rec.ev(E{"ev": "quiesce", "ran": int(atomic.LoadInt32(&ran)), "expect": K + 1, "stuck": stuck, "s": 0, "i": 0})
+	return rec.flush(w)
+}
+
 func c12Main(args []string) error {
 	switch args[0] {
 	case "record":
@@ -221,6 +272,12 @@ func c12Main(args []string) error {
 		n, runs := 0, 0
 		n += c12Spawn(w)
 		runs++
+		for _, kind := range []string{"handler", "actor"} {
+			for _, K := range []int{1, 2, 8} {
+				n += c12CloseWithBacklog(w, kind, K)
+				runs++
+			}
+		}
 		for r := 0; r < rounds; r++ {
 			for _, kind := range []string{"handler", "actor"} {
 				for _, K := range []int{-1, 0, 1, 8} {
